@@ -194,10 +194,39 @@ pub const UNITS: &[Unit] = &[
     Unit::Custom("we\"ird\\unit"),
     Unit::Custom(""),
     Unit::Custom("Furlongs/Fortnight"),
+    Unit::Custom("tab\there"),
+    Unit::Custom("line\nbreak"),
+    Unit::Custom("nul\u{0}byte"),
+    Unit::Custom("\u{1f}unit-separator\u{7f}"),
+    Unit::Custom("\u{8}\u{c}\r"),
+    Unit::Custom("\u{e9}t\u{e9} \u{1F600} \u{2028}"),
+    Unit::Custom("/*comment*/ </script>"),
 ];
 
 pub fn gen_obs(rng: &mut Rng) -> Obs {
-    match rng.below(12) {
+    match rng.below(16) {
+        // any bit pattern at all (NaNs included: they are skipped observations)
+        12 => Obs::F(rng.next_u64()),
+        // whole numbers of every magnitude, either sign, up to and beyond the 64-bit integer range
+        13 => {
+            let sh = rng.below(64);
+            let m = (rng.next_u64() >> sh) as f64 * 2f64.powi(rng.below(5) as i32 * 8);
+            Obs::F((if rng.bool() { m } else { -m }).to_bits())
+        }
+        // powers of two and their neighbours across the whole exponent range
+        14 => {
+            let p = 2f64.powi(rng.below(2098) as i32 - 1074);
+            let bits = p.to_bits().wrapping_add(*rng.pick(&[0u64, 1, u64::MAX]));
+            Obs::F(if rng.bool() { bits } else { bits | (1 << 63) })
+        }
+        // a repeated observation whose mean is a large whole number
+        15 => {
+            let sh = rng.below(40);
+            let occ = 1 + rng.below(1 << sh);
+            let sh = rng.below(64);
+            let mean = (rng.next_u64() >> sh) as f64;
+            Obs::R { total: (mean * occ as f64).to_bits(), occ }
+        }
         0 => Obs::U(0),
         1 => Obs::U(rng.below(1000)),
         2 => Obs::U(*rng.pick(&[(1u64 << 53) - 1, 1 << 53, (1 << 53) + 1, u64::MAX, u64::MAX - 1, 1 << 63])),
